@@ -12,14 +12,14 @@ import tempfile
 import textwrap
 import time
 
-from .core import Obligation, PY, ROOT
+from .core import Obligation, PY, ROOT, OUT, pythonpath
 
 JOBS = int(os.environ.get('VERIF_JOBS', '16'))
 
 
 def workdir():
-    os.makedirs(os.path.join(ROOT, '.work'), exist_ok=True)
-    return tempfile.mkdtemp(prefix='xh-', dir=os.path.join(ROOT, '.work'))
+    os.makedirs(os.path.join(OUT, '.work'), exist_ok=True)
+    return tempfile.mkdtemp(prefix='xh-', dir=os.path.join(OUT, '.work'))
 
 
 def condition_functions(source):
@@ -69,7 +69,7 @@ def _run_one(path, fname, tmo, ppt=None):
     # short is UNKNOWN for good, and 16 loaded cores make that common
     ppt = ppt or max(30.0, tmo / 3.0)
     cmd = [PY, '-m', 'vlib.xh_worker', path, fname, str(tmo)] + ([str(ppt)] if ppt else [])
-    env = dict(os.environ, PYTHONPATH=ROOT + ':' + os.path.dirname(path), PYTHONWARNINGS='ignore',
+    env = dict(os.environ, PYTHONPATH=pythonpath(os.path.dirname(path)), PYTHONWARNINGS='ignore',
                PYTHONHASHSEED='0')
     t0 = time.time()
     try:
@@ -143,7 +143,7 @@ class Harness:
     def __init__(self, check, name, source, keep_dir=None):
         self.check, self.name = check, name
         self.dir = keep_dir or workdir()
-        self.persist_dir = os.path.join(ROOT, 'replays', 'harness')
+        self.persist_dir = os.path.join(OUT, 'replays', 'harness')
         self.path = os.path.join(self.dir, name + '.py')
         self.source = add_twins(textwrap.dedent(source))
         with open(self.path, 'w') as f:
